@@ -431,6 +431,17 @@ macro_rules! snapshot_impl {
     };
 }
 
+pub static LOCAL_EXEC: std::sync::atomic::AtomicBool = std::sync::atomic::AtomicBool::new(false);
+
+/// Drive a future on the executor of this run's flavour.
+pub fn bo<F: std::future::Future>(f: F) -> F::Output {
+    if LOCAL_EXEC.load(Ordering::SeqCst) {
+        stretto_sim_rt::local::block_on(f)
+    } else {
+        rt::block_on(f)
+    }
+}
+
 fn hold_points(n: u32) {
     for _ in 0..n {
         rt::yield_now();
@@ -496,19 +507,19 @@ mod async_impl {
     impl Api for AsyncC {
         fn insert(&self, k: u64, v: Val, cost: i64, ttl: Duration) -> Result<bool, String> {
             if ttl.is_zero() {
-                rt::block_on(self.try_insert(k, v, cost)).map_err(|e| e.to_string())
+                bo(self.try_insert(k, v, cost)).map_err(|e| e.to_string())
             } else {
-                rt::block_on(self.try_insert_with_ttl(k, v, cost, ttl)).map_err(|e| e.to_string())
+                bo(self.try_insert_with_ttl(k, v, cost, ttl)).map_err(|e| e.to_string())
             }
         }
         fn insert_if_present(&self, k: u64, v: Val, cost: i64) -> Result<bool, String> {
-            rt::block_on(self.try_insert_if_present(k, v, cost)).map_err(|e| e.to_string())
+            bo(self.try_insert_if_present(k, v, cost)).map_err(|e| e.to_string())
         }
         fn remove(&self, k: u64) -> Result<(), String> {
-            rt::block_on(self.try_remove(&k)).map_err(|e| e.to_string())
+            bo(self.try_remove(&k)).map_err(|e| e.to_string())
         }
         fn get(&self, k: u64, hold: u32) -> Option<(Val, Val, u64)> {
-            let r = rt::block_on(SelfTy::get(self, &k))?;
+            let r = bo(SelfTy::get(self, &k))?;
             let first = *r.value();
             let ttl = dur_ns(r.ttl());
             hold_points(hold);
@@ -517,7 +528,7 @@ mod async_impl {
             Some((first, last, ttl))
         }
         fn get_mut(&self, k: u64, write: Option<Val>, hold: u32) -> Option<(Val, Val)> {
-            let mut r = rt::block_on(SelfTy::get_mut(self, &k))?;
+            let mut r = bo(SelfTy::get_mut(self, &k))?;
             let prev = *r.value();
             hold_points(hold);
             if let Some(w) = write {
@@ -528,13 +539,13 @@ mod async_impl {
             Some((prev, left))
         }
         fn wait(&self) -> Result<(), String> {
-            rt::block_on(SelfTy::wait(self)).map_err(|e| e.to_string())
+            bo(SelfTy::wait(self)).map_err(|e| e.to_string())
         }
         fn clear(&self) -> Result<(), String> {
-            rt::block_on(SelfTy::clear(self)).map_err(|e| e.to_string())
+            bo(SelfTy::clear(self)).map_err(|e| e.to_string())
         }
         fn close(&self) -> Result<(), String> {
-            rt::block_on(SelfTy::close(self)).map_err(|e| e.to_string())
+            bo(SelfTy::close(self)).map_err(|e| e.to_string())
         }
         fn clone_box(&self) -> Box<dyn Api> {
             Box::new(self.clone())
@@ -650,7 +661,7 @@ macro_rules! typed_api {
         }
     };
     (@w [] $e:expr) => { $e };
-    (@w [async] $e:expr) => { rt::block_on($e) };
+    (@w [async] $e:expr) => { bo($e) };
 }
 
 macro_rules! typed_int {
@@ -689,6 +700,8 @@ typed_api!(TStrA, AsyncCache, AsyncCacheBuilder, String, stretto::DefaultKeyBuil
 
 fn build_typed(cfg: &Cfg, ty: &str, cb: HCallback) -> Result<Box<dyn Api>, String> {
     let s = cfg.flavor == Flavor::Sync;
+    LOCAL_EXEC.store(cfg.flavor == Flavor::AsyncLocal, Ordering::SeqCst);
+    stretto_sim_rt::local::reset();
     MASK_CONFLICT.store(ty == "string", Ordering::SeqCst);
     match (ty, s) {
         ("i8", true) => TI8s::build(cfg, cb),
@@ -722,6 +735,10 @@ fn async_spawner(fut: futures::future::BoxFuture<'static, ()>) {
     static N: AtomicUsize = AtomicUsize::new(0);
     let n = N.fetch_add(1, Ordering::SeqCst);
     let name = if n % 2 == 0 { "policy_worker" } else { "processor" };
+    if LOCAL_EXEC.load(Ordering::SeqCst) {
+        stretto_sim_rt::local::spawn(fut);
+        return;
+    }
     rt::spawn_task(name, rt::Kind::Worker, move || {
         rt::block_on(fut);
     });
@@ -737,6 +754,8 @@ pub fn build(cfg: &Cfg) -> Result<Box<dyn Api>, String> {
         return build_typed(cfg, ty, cb);
     }
     MASK_CONFLICT.store(false, Ordering::SeqCst);
+    LOCAL_EXEC.store(cfg.flavor == Flavor::AsyncLocal, Ordering::SeqCst);
+    stretto_sim_rt::local::reset();
     match cfg.flavor {
         Flavor::Sync => {
             let b = CacheBuilder::<u64, Val, HKb>::new_with_key_builder(cfg.num_counters, cfg.max_cost, kb)
@@ -751,7 +770,7 @@ pub fn build(cfg: &Cfg) -> Result<Box<dyn Api>, String> {
                 .set_hasher(SeedState(cfg.hasher_seed));
             b.finalize().map(|c| Box::new(c) as Box<dyn Api>).map_err(|e| format!("{:?}", e))
         }
-        Flavor::Async => {
+        Flavor::Async | Flavor::AsyncLocal => {
             let b = AsyncCacheBuilder::<u64, Val, HKb>::new_with_key_builder(cfg.num_counters, cfg.max_cost, kb)
                 .set_buffer_size(cfg.buffer_size)
                 .set_buffer_items(cfg.buffer_items)
@@ -868,7 +887,11 @@ pub fn do_op(api: &dyn Api, client: usize, idx: usize, op: &Op) {
         }
         Op::MaxCost => Res::Num(api.max_cost()),
         Op::Sleep { ns } => {
-            rt::sleep_ns(*ns);
+            if LOCAL_EXEC.load(Ordering::SeqCst) {
+                stretto_sim_rt::local::block_on(stretto_sim_rt::local::sleep_ns(*ns));
+            } else {
+                rt::sleep_ns(*ns);
+            }
             Res::Unit
         }
         Op::Jump { ns } => {
@@ -965,6 +988,9 @@ pub fn run_plan(plan: &Plan) {
                 match op {
                     Op::Barrier => {
                         log(EvKind::Inv { client: ci, idx, op: op.clone(), val: None });
+                        if LOCAL_EXEC.load(Ordering::SeqCst) {
+                            stretto_sim_rt::local::run_until_stalled();
+                        }
                         sh.arrived.fetch_add(1, Ordering::SeqCst);
                         my_gen += 1;
                         let g = my_gen;
@@ -984,6 +1010,9 @@ pub fn run_plan(plan: &Plan) {
                         }
                     }
                 }
+            }
+            if LOCAL_EXEC.load(Ordering::SeqCst) {
+                stretto_sim_rt::local::run_until_stalled();
             }
             drop(handle);
             sh.finished.fetch_add(1, Ordering::SeqCst);
